@@ -9,6 +9,7 @@ import (
 	"github.com/smart-core-os/sc-api/go/types"
 	"github.com/smart-core-os/sc-golang/pkg/resource"
 	"github.com/smart-core-os/sc-golang/verifharness/vcoq"
+	"google.golang.org/protobuf/proto"
 )
 
 // Public-API part: resource.Collection / resource.Value with one subscriber.
@@ -20,6 +21,22 @@ const (
 	convergeBudget = 3 * time.Second
 	quiet          = 50 * time.Millisecond
 )
+
+// timed runs one write; blocked = it did not return within 2 s (it is abandoned: the caller
+// cancels the subscription, which releases it)
+func timed(f func() error) (dt time.Duration, err error, blocked bool) {
+	done := make(chan error, 1)
+	t0 := time.Now()
+	go func() { done <- f() }()
+	t := time.NewTimer(2 * time.Second)
+	defer t.Stop()
+	select {
+	case err = <-done:
+		return time.Since(t0), err, false
+	case <-t.C:
+		return time.Since(t0), nil, true
+	}
+}
 
 func listZ(v []int64) string { return vcoq.ListZ(v) }
 
@@ -57,18 +74,25 @@ func collWrite(c *resource.Collection, s *sstate, r *vcoq.Rand, nids int64) (cch
 	}
 	ev := s.emit(id, w).C
 	ev.Time = 0
-	t0 := time.Now()
-	var err error
-	switch w {
-	case 'a':
-		_, err = c.Add(idName(id), tok(*ev.New))
-	case 'u':
-		_, err = c.Update(idName(id), tok(*ev.New))
-	default:
-		_, err = c.Delete(idName(id))
+	dt, err, blocked := timed(func() error {
+		var err error
+		switch w {
+		case 'a':
+			_, err = c.Add(idName(id), tok(*ev.New))
+		case 'u':
+			_, err = c.Update(idName(id), tok(*ev.New))
+		default:
+			_, err = c.Delete(idName(id))
+		}
+		return err
+	})
+	if blocked {
+		err = errBlocked
 	}
-	return ev, time.Since(t0), err
+	return ev, dt, err
 }
+
+var errBlocked = fmt.Errorf("write did not return within 2 s")
 
 func foldGo(view map[int64]int64, c cchange) {
 	if c.Kind == int64(types.ChangeType_REMOVE) || c.New == nil {
@@ -109,6 +133,12 @@ func runCollLossy(r *vcoq.Rand, rounds, burst int, nids int64) (collRun, error) 
 		n := r.Range(1, burst)
 		for i := 0; i < n; i++ {
 			ev, dt, err := collWrite(c, s, r, nids)
+			if err == errBlocked {
+				// the writer waited for the idle subscriber: recorded, not a harness error
+				run.sent = append(run.sent, ev)
+				run.slow, run.converged = true, false
+				return run, nil
+			}
 			if err != nil {
 				return run, fmt.Errorf("collection write failed: %v", err)
 			}
@@ -191,6 +221,11 @@ func runCollBackpressure(r *vcoq.Rand, n int, nids int64) (collRun, error) {
 	s := newSState()
 	for i := 0; i < n; i++ {
 		ev, dt, err := collWrite(c, s, r, nids)
+		if err == errBlocked {
+			run.sent = append(run.sent, ev)
+			run.converged = false
+			break
+		}
 		if err != nil {
 			return run, fmt.Errorf("collection write failed: %v", err)
 		}
@@ -244,11 +279,14 @@ func runValueLossy(r *vcoq.Rand, rounds, burst int) (valRun, error) {
 		n := r.Range(1, burst)
 		var last int64
 		for i := 0; i < n; i++ {
-			t0 := time.Now()
-			res, err := v.Set(tok(next))
-			dt := time.Since(t0)
-			if err != nil {
-				return run, fmt.Errorf("Value.Set failed: %v", err)
+			var res proto.Message
+			tk := tok(next)
+			dt, err, blocked := timed(func() error { var e error; res, e = v.Set(tk); return e })
+			if blocked || err != nil {
+				// the writer waited for the idle subscriber (and possibly ran into the send timeout)
+				run.sent = append(run.sent, next)
+				run.slow, run.converged = true, false
+				return run, nil
 			}
 			last = *canonValue(res)
 			run.sent = append(run.sent, last)
@@ -421,8 +459,12 @@ func genAPI(o *vcoq.Out, r *vcoq.Rand, thorough bool) error {
 	}
 	cases := make([]*vcoq.Case, len(jobs))
 	errs := make([]error, len(jobs))
+	trouble.Store(0)
 	parallel(len(jobs), func(i int) {
 		j := jobs[i]
+		if tooMuchTrouble() {
+			return
+		}
 		switch j.kind {
 		case "coll-lossy", "coll-bp":
 			var run collRun
@@ -435,6 +477,9 @@ func genAPI(o *vcoq.Out, r *vcoq.Rand, thorough bool) error {
 			if err != nil {
 				errs[i] = err
 				return
+			}
+			if !run.converged || run.slow {
+				trouble.Add(1)
 			}
 			tags := []string{"api:" + j.kind}
 			if len(run.got) < len(run.sent) {
@@ -460,6 +505,9 @@ func genAPI(o *vcoq.Out, r *vcoq.Rand, thorough bool) error {
 				errs[i] = err
 				return
 			}
+			if !run.converged || run.slow {
+				trouble.Add(1)
+			}
 			tags := []string{"api:" + j.kind}
 			if len(run.got) < len(run.sent) {
 				tags = append(tags, "api:values-dropped")
@@ -478,7 +526,9 @@ func genAPI(o *vcoq.Out, r *vcoq.Rand, thorough bool) error {
 		if errs[i] != nil {
 			return errs[i]
 		}
-		o.Add(*c)
+		if c != nil {
+			o.Add(*c)
+		}
 	}
 	for _, useValue := range []bool{false, true} {
 		first, early, after := runWaits(useValue)
